@@ -46,7 +46,64 @@ def gen_history(rng, schema, n_ops):
     return ops, metas
 
 
+def long_list_cases(ctx):
+    """One crate holding thousands of entries (a 'whole collection' playlist): the listing must still give every entry once, in the
+    order added - through crate::tracks() and through the entity table - also after the first, middle and last entry are
+    removed and another is appended."""
+    cases = []
+    for i, schema in enumerate(V2_SCHEMAS):
+        if ctx.tier == "quick":
+            n = 10500 if (i + ctx.seed) % len(V2_SCHEMAS) in (0, 3) else 1500
+        else:
+            n = 25000
+        keep = [0, n // 2, n - 1]
+        ops = [{"op": "lib_create_temporary", "schema": schema}, {"op": "set_budget", "vdbe": 4 * 10 ** 10},
+               {"op": "create_root_crate", "name": FO.hx("Collection"), "as": "cL"},
+               {"op": "crate_query", "c": "cL", "q": "id", "bind": "lid"},
+               {"op": "bulk_fill", "c": "cL", "n": n, "prefix": FO.hx("collection"), "keep": keep, "as": "bk"},
+               {"op": "crate_query", "c": "cL", "q": "tracks"}, {"op": "pe_track_ids", "list": "$lid"},
+               {"op": "remove_track_from", "c": "cL", "t": "bk_%d" % keep[0]}, {"op": "remove_track_from", "c": "cL", "t": "bk_%d" % keep[1]},
+               {"op": "remove_track_from", "c": "cL", "t": "bk_%d" % keep[2]},
+               {"op": "create_track", "as": "tx", "snap": {"relative_path": FO.hx("collection/one more.mp3")}},
+               {"op": "add_track", "c": "cL", "t": "tx"},
+               {"op": "crate_query", "c": "cL", "q": "tracks"}, {"op": "pe_track_ids", "list": "$lid"}]
+        cases.append({"id": "long%d" % i, "schema": schema, "ops": ops, "_n": n, "_keep": keep, "no_tz": True, "no_disk": True})
+    return cases
+
+
+def judge_long(ctx, res):
+    case = res.case
+    schema, n, keep = case["schema"], case["_n"], case["_keep"]
+    wit = {"schema": schema, "long_list": n, "ops": case["ops"]}
+    ctx.count()
+    if res.crash:
+        c = res.crash
+        ctx.violation(f"op-did-not-complete v2 long-list {c.get('op')} {c['kind']}", f"{schema}: {c.get('op')} on a list of {n} entries did not complete: {c['kind']}", wit)
+        return
+    ev = res.events
+    bad = [k for k, e in enumerate(ev) if "exc" in e]
+    if bad:
+        x = ev[bad[0]]["exc"]
+        ctx.violation(f"long-list-op-throws v2 {case['ops'][bad[0]]['op']}", f"{schema}: {case['ops'][bad[0]]['op']} on a list of {n} entries throws {x['type']}", wit)
+        return
+    ids = ev[4]["ret"]
+    ctx.bump_in("long_list_entries", str(n))
+    ctx.nontriv({"schema": schema, "long": n})
+    after = [x for j, x in enumerate(ids) if j not in keep] + [ev[10]["ret"]]
+    for k, want, what in ((5, ids, "tracks()"), (6, ids, "track_ids()"), (12, after, "tracks() after removals and an append"),
+                          (13, after, "track_ids() after removals and an append")):
+        got = ev[k]["ret"]
+        if got != want:
+            miss = len(set(want) - set(got))
+            ctx.violation(f"long-list-listing-wrong v2 {what.split('(')[0]}",
+                          f"{schema}: {what} of a crate with {len(want)} entries returns {len(got)} ids ({miss} missing, "
+                          f"{'order differs' if sorted(got) == sorted(want) else 'content differs'}); first expected {want[:2]}, first got {got[:2]}", wit)
+
+
 def run(ctx):
+    runner.run_cases(long_list_cases(ctx), cfg="plain", on_result=lambda r: judge_long(ctx, r), stall_timeout=600)
+    if not ctx.extra.get("long_list_entries"):
+        ctx.fail_harness("the long-list cases judged nothing")
     per = 60 if ctx.tier == "quick" else 3000
     cases = []
     n = 0
@@ -77,4 +134,10 @@ def run(ctx):
 
 
 def replay(ctx, doc):
+    r = doc["replay"]
+    if r.get("long_list"):
+        n = r["long_list"]
+        judge_long(ctx, runner.run_one({"id": "replay", "schema": r["schema"], "ops": r["ops"], "_n": n, "_keep": [0, n // 2, n - 1], "no_tz": True,
+                                        "no_disk": True}, cfg="plain", stall_timeout=600))
+        return
     c08.replay(ctx, doc, ordered=True)
